@@ -22,6 +22,9 @@ package hybridbuffer
 //@ pure func pbytes(op *chunkOperator) int := mval[ref(op.metrics.persistentChunkBytes)]
 //@ pure func pcount(op *chunkOperator) int := mval[ref(op.metrics.persistentChunks)]
 //@ pure func validop(op *chunkOperator) bool := op != nil && validopv(*op)
+// opnames(op): the operator's metrics are the two gauges and the counter it registered (kind / name of a metric cell: stdlib.spec)
+//@ pure func opnames(op chunkOperator) bool := mkind(ref(op.metrics.persistentChunks)) == 1 && mkind(ref(op.metrics.persistentChunkBytes)) == 1 && mkind(ref(op.metrics.ioErrorsTotal)) == 2
+//@      && mname(ref(op.metrics.ioErrorsTotal)) == key("io_errors_total") && mname(ref(op.metrics.persistentChunks)) == key("persistent_chunks") && mname(ref(op.metrics.persistentChunkBytes)) == key("persistent_chunk_bytes")
 //@ pure func validopv(op chunkOperator) bool :=
 //@     op.metrics.persistentChunks != nil && op.metrics.persistentChunkBytes != nil && op.metrics.ioErrorsTotal != nil && op.matchChunkID != nil
 //@  && ref(op.metrics.persistentChunks) != ref(op.metrics.persistentChunkBytes) && ref(op.metrics.persistentChunks) != ref(op.metrics.ioErrorsTotal)
@@ -299,6 +302,7 @@ package hybridbuffer
 //@   modifies mval, fdname, nopenfd
 //@   ensures[new-operator-is-valid-with-empty-gauges] validopv(result) && mval[ref(result.metrics.persistentChunks)] == 0 && mval[ref(result.metrics.persistentChunkBytes)] == 0
 //@   ensures[new-operator-keeps-its-arguments] result.maxTotalBytes == maxTotalBytes && result.matchChunkID === matchChunkID
+//@   ensures[operator-metrics-are-gauges-and-a-counter-of-their-own-names] opnames(result)
 //@ func (op *chunkOperator) Close()
 //@   requires validop(op)
 //@   modifies mval[ref(op.metrics.ioErrorsTotal)], op.maybeDir.*
@@ -319,3 +323,19 @@ package hybridbuffer
 //@   ensures[the-directory-returned-is-the-one-created] result == lastmkdir
 //@   ensures[empty-id-uses-the-root] bufferID == "" ==> result == rootPath
 //@   ensures[id-file-holds-the-raw-id] lastwfdata == bufferID && lastwfname == pathjoin2(key(result), key(".id"))
+
+// ==== constructors of the manager (C03 C19): the balance invariant `bal` and every counter clause above assume that the manager's
+// six metric cells are pairwise different and different from the operator's three (validman) - established here from what
+// the metric creator hands out (one cell per kind, name and label value), not assumed
+//@ pure func distinctfrom3v(x int, m chunkManager) bool :=
+//@     x != ref(m.operator.metrics.persistentChunks) && x != ref(m.operator.metrics.persistentChunkBytes) && x != ref(m.operator.metrics.ioErrorsTotal)
+//@ func newChunkManager(parentLogger logger.Logger, operator chunkOperator, metricCreator promreg.MetricCreator, sendAllAtEnd bool) chunkManager
+//@   property C03 C19
+//@   requires metricCreator != nil && validopv(operator) && opnames(operator)
+//@   modifies mval
+//@   ensures[new-manager-has-all-its-metrics-and-a-valid-operator] validopv(result.operator) && result.metrics.pendingChunks != nil && result.metrics.inputChunksTotalTransient != nil && result.metrics.inputChunksTotalPersistent != nil
+//@        && result.metrics.consumedChunksTotal != nil && result.metrics.leftoverChunksTotal != nil && result.metrics.droppedChunksTotal != nil && mval[ref(result.metrics.pendingChunks)] == 0
+//@   ensures[the-six-metric-cells-of-a-manager-are-pairwise-different] distinct6(ref(result.metrics.pendingChunks), ref(result.metrics.inputChunksTotalTransient), ref(result.metrics.inputChunksTotalPersistent), ref(result.metrics.consumedChunksTotal), ref(result.metrics.leftoverChunksTotal), ref(result.metrics.droppedChunksTotal))
+//@   ensures[and-different-from-the-operator's-three] distinctfrom3v(ref(result.metrics.pendingChunks), result) && distinctfrom3v(ref(result.metrics.inputChunksTotalTransient), result) && distinctfrom3v(ref(result.metrics.inputChunksTotalPersistent), result)
+//@        && distinctfrom3v(ref(result.metrics.consumedChunksTotal), result) && distinctfrom3v(ref(result.metrics.leftoverChunksTotal), result) && distinctfrom3v(ref(result.metrics.droppedChunksTotal), result)
+//@   ensures[memory-only-mode-exactly-when-asked-for-or-without-a-directory] result.sendAllAtEnd == (sendAllAtEnd || operator.maybeDir == nil)
